@@ -49,15 +49,15 @@ Proof. reflexivity. Qed.
 Print Assumptions C03_count_function.
 
 (** first(): a first sighting records this line and votes; a later sighting changes nothing and does not vote *)
-Theorem C03_first_step : forall blanks AND s l nm i,
+Theorem C03_first_step : forall q blanks AND s l nm i,
   let key := hdr_key l i in
-  let r := do_agg blanks AND s l (First nm i) in
+  let r := do_agg q blanks AND s l (First nm i) in
   match dget (x mx s) nm key with
   | Some (VI z) => fst r = s /\ snd r = false
   | None => dget (x mx (fst r)) nm key = Some (VI (pln mx s)) /\ snd r = true
   | _ => True
   end.
-Proof. intros blanks AND. exact (first_step blanks AND). Qed.
+Proof. intros q blanks AND. exact (first_step q blanks AND). Qed.
 Print Assumptions C03_first_step.
 
 (** ... and the line recorded for a value's first sighting never changes for the rest of the run: any
@@ -70,49 +70,67 @@ Proof. exact first_sighting_stable. Qed.
 Print Assumptions C03_first_sighting_stable.
 
 (** tally(), every(), counter(), sum(), subtotal(), "@name.key = e": what one evaluation writes, and what it leaves alone *)
-Theorem C03_tally_step : forall blanks AND s l i,
-  let d := 100 + Z.of_nat i in let key := hdr_key l i in let m' := x mx (fst (do_agg blanks AND s l (Tally i))) in
+Theorem C03_tally_step : forall q blanks AND s l i,
+  let d := 100 + Z.of_nat i in let key := hdr_key l i in let m' := x mx (fst (do_agg q blanks AND s l (Tally i))) in
   dget m' d key = Some (VI (num_of (dget (x mx s) d key) + 1)) /\
   (forall key', key <> key' -> dget m' d key' = dget (x mx s) d key') /\
   (forall d' key', d <> d' -> dget m' d' key' = dget (x mx s) d' key') /\
-  vars m' = vars (x mx s) /\ stacks m' = stacks (x mx s) /\ snd (do_agg blanks AND s l (Tally i)) = true.
+  vars m' = vars (x mx s) /\ stacks m' = stacks (x mx s) /\ snd (do_agg q blanks AND s l (Tally i)) = true.
 Proof. exact tally_step. Qed.
 Print Assumptions C03_tally_step.
-Theorem C03_every_step : forall blanks AND s l nm i n,
-  let key := hdr_key l i in let r := do_agg blanks AND s l (Every nm i n) in
+Theorem C03_every_step : forall q blanks AND s l nm i n,
+  let key := hdr_key l i in let r := do_agg q blanks AND s l (Every nm i n) in
   dget (x mx (fst r)) nm key = Some (VI (num_of (dget (x mx s) nm key) + 1)) /\
   snd r = ((num_of (dget (x mx s) nm key) + 1) mod n =? 0) /\
   (forall key', key <> key' -> dget (x mx (fst r)) nm key' = dget (x mx s) nm key').
 Proof. exact every_step. Qed.
 Print Assumptions C03_every_step.
-Theorem C03_counter_step : forall blanks AND s l nm k,
-  let r := do_agg blanks AND s l (Counter nm k) in
+Theorem C03_counter_step : forall q blanks AND s l nm k,
+  let r := do_agg q blanks AND s l (Counter nm k) in
   lookup nm (vars (x mx (fst r))) = Some (VI (num_of (lookup nm (vars (x mx s))) + k)) /\
   (forall v, nm <> v -> lookup v (vars (x mx (fst r))) = lookup v (vars (x mx s))) /\
   dicts (x mx (fst r)) = dicts (x mx s) /\ stacks (x mx (fst r)) = stacks (x mx s).
 Proof. exact counter_step. Qed.
 Print Assumptions C03_counter_step.
-Theorem C03_counter_expr_step : forall blanks AND s l nm e,
-  let r := do_agg blanks AND s l (CounterE nm e) in
+Theorem C03_counter_expr_step : forall q blanks AND s l nm e,
+  let r := do_agg q blanks AND s l (CounterE nm e) in
   lookup nm (vars (x mx (fst r))) = Some (VI (num_of (lookup nm (vars (x mx s))) + fst (neval blanks s l e))) /\
   (forall v, nm <> v -> lookup v (vars (x mx (fst r))) = lookup v (vars (x mx s))) /\
   dicts (x mx (fst r)) = dicts (x mx s) /\ stacks (x mx (fst r)) = stacks (x mx s).
 Proof. exact counter_expr_step. Qed.
 Print Assumptions C03_counter_expr_step.
-Theorem C03_sum_step : forall blanks AND s l nm e,
-  let r := do_agg blanks AND s l (Sum nm e) in
+Theorem C03_counter_eq_step : forall q blanks AND s l nm k n,
+  let r := do_agg q blanks AND s l (CounterEq nm k n) in
+  let cnt := num_of (lookup nm (vars (x mx s))) + k in
+  lookup nm (vars (x mx (fst r))) = Some (VI cnt) /\ snd r = (cnt =? n) /\
+  (forall v, nm <> v -> lookup v (vars (x mx (fst r))) = lookup v (vars (x mx s))) /\
+  dicts (x mx (fst r)) = dicts (x mx s) /\ stacks (x mx (fst r)) = stacks (x mx s).
+Proof. exact counter_eq_step. Qed.
+Print Assumptions C03_counter_eq_step.
+Theorem C03_count_if_step : forall q blanks AND s l v nm c,
+  let r := do_agg q blanks AND s l (CountIf v nm c) in
+  let key := if beval q blanks s l c then py_true else py_false in
+  let cnt := num_of (dget (x mx s) nm key) + 1 in
+  dget (x mx (fst r)) nm key = Some (VI cnt) /\ lookup v (vars (x mx (fst r))) = Some (VI cnt) /\
+  (forall key', key <> key' -> dget (x mx (fst r)) nm key' = dget (x mx s) nm key') /\
+  (forall w, v <> w -> lookup w (vars (x mx (fst r))) = lookup w (vars (x mx s))) /\
+  snd r = AND.
+Proof. exact count_if_step. Qed.
+Print Assumptions C03_count_if_step.
+Theorem C03_sum_step : forall q blanks AND s l nm e,
+  let r := do_agg q blanks AND s l (Sum nm e) in
   lookup nm (vars (x mx (fst r))) = Some (VF (num_of (lookup nm (vars (x mx s))) + fst (neval blanks s l e))) /\
   (forall v, nm <> v -> lookup v (vars (x mx (fst r))) = lookup v (vars (x mx s))).
 Proof. exact sum_step. Qed.
 Print Assumptions C03_sum_step.
-Theorem C03_subtotal_step : forall blanks AND s l nm i e,
-  let key := hdr_key l i in let r := do_agg blanks AND s l (Subtotal nm i e) in
+Theorem C03_subtotal_step : forall q blanks AND s l nm i e,
+  let key := hdr_key l i in let r := do_agg q blanks AND s l (Subtotal nm i e) in
   dget (x mx (fst r)) nm key = Some (VF (num_of (dget (x mx s) nm key) + fst (neval blanks s l e))) /\
   (forall key', key <> key' -> dget (x mx (fst r)) nm key' = dget (x mx s) nm key').
 Proof. exact subtotal_step. Qed.
 Print Assumptions C03_subtotal_step.
-Theorem C03_assign_key_step : forall blanks AND s l nm key e,
-  let r := do_agg blanks AND s l (AssignK nm key e) in
+Theorem C03_assign_key_step : forall q blanks AND s l nm key e,
+  let r := do_agg q blanks AND s l (AssignK nm key e) in
   dget (x mx (fst r)) nm key = Some (nvalue blanks s l e) /\
   (forall key', key <> key' -> dget (x mx (fst r)) nm key' = dget (x mx s) nm key').
 Proof. exact assign_key_step. Qed.
@@ -196,8 +214,8 @@ Print Assumptions C03_subtotal_totals_scanned.
 
 (** tally() with several arguments: one store per argument (a blank value is not stored; a missing cell counts as the
     text None) and one under the values joined by '|'; every other key and dictionary is left alone *)
-Theorem C03_tally_arg_step : forall blanks AND s l i,
-  let d := 100 + Z.of_nat i in let key := tally_text l i in let r := do_agg blanks AND s l (TallyS i) in
+Theorem C03_tally_arg_step : forall q blanks AND s l i,
+  let d := 100 + Z.of_nat i in let key := tally_text l i in let r := do_agg q blanks AND s l (TallyS i) in
   snd r = true /\
   (is_blank_text key = true -> fst r = s) /\
   (is_blank_text key = false ->
@@ -205,8 +223,8 @@ Theorem C03_tally_arg_step : forall blanks AND s l i,
      (forall key', key <> key' -> dget (x mx (fst r)) d key' = dget (x mx s) d key')).
 Proof. exact tally_arg_step. Qed.
 Print Assumptions C03_tally_arg_step.
-Theorem C03_tally_combined_step : forall blanks AND s l i j,
-  let key := tally_text l i ++ [124] ++ tally_text l j in let r := do_agg blanks AND s l (TallyC i j) in
+Theorem C03_tally_combined_step : forall q blanks AND s l i j,
+  let key := tally_text l i ++ [124] ++ tally_text l j in let r := do_agg q blanks AND s l (TallyC i j) in
   snd r = true /\ dget (x mx (fst r)) 99 key = Some (VI (num_of (dget (x mx s) 99 key) + 1)) /\
   (forall key', key <> key' -> dget (x mx (fst r)) 99 key' = dget (x mx s) 99 key') /\
   (forall d key', d <> 99 -> dget (x mx (fst r)) d key' = dget (x mx s) d key').
